@@ -55,6 +55,12 @@ def gen(run_seed, tier):
         for _ in range(n_ops):
             k = r.choices(kinds, w)[0]
             ops.append({'op': k, 's': r.getrandbits(48), 'src': r.randrange(12), 'to': r.randrange(n)})
+        # a sender that announced earlier sends a store the handler must reject (blob hash of the right LENGTH but the
+        # wrong type) with another tcp port: the earlier announcements are stored state (own stream)
+        r2 = stream('C17.gen.store_pair', run_seed)
+        for _ in range(r2.choice([0, 2, 5, 10])):
+            ops.insert(r2.randrange(len(ops) + 1), {'op': 'store_pair', 's': r2.getrandbits(48), 'src': r2.randrange(12),
+                                                    'to': r2.randrange(n)})
         return {'family': 'single', 'n': n, 'id_seed': r.getrandbits(32), 'settle': r.choice([30, 330, 620]),
                 'net': {'latency': [0.001, 0.05]}, 'ops': ops}
     sc = None
@@ -310,9 +316,32 @@ def judge_delivery(run, net, ep, data, src, how):
         prod, prod_exc = None, e
     before = snapshot(proto) if ref is None else None
     now = proto.loop.time()
+    # which failures THIS delivery books (several datagrams can share one virtual instant, so the time stamp of the
+    # record does not tell): an observation wrapper on the instance for the duration of the call
+    booked = []
+    pm = proto.peer_manager
+    booked_orig = pm.report_failure
+
+    def booked_spy(address, udp_port):
+        booked.append((address, udp_port))
+        return booked_orig(address, udp_port)
+    pm.report_failure = booked_spy
     arm_guard(len(data))
-    exc = net.deliver_guarded(ep, data, src)
+    try:
+        exc = net.deliver_guarded(ep, data, src)
+    finally:
+        del pm.report_failure
     _Guard.limit = 0
+    if ref is None and exc is None:
+        # "the SENDER's failure recorded": whatever the handler decides about a datagram that is not a well-formed
+        # message, it must not book a failure against anybody but the address the datagram came from (a node id is
+        # public, anyone can put a known contact's id into a datagram)
+        for key_ in booked:
+            if key_ != (src[0], src[1]):
+                run.violation('C17.failure_misattributed', f'a {how} datagram from {src} that is not a well-formed message '
+                              f'made the node record a failure for {key_}, which sent nothing; datagram {data[:120]!r}',
+                              decoded=prod is not None)
+                return False
     if ref is not None:
         run.probes['class_a_valid'] += 1
         if prod is None:
@@ -349,8 +378,7 @@ def judge_delivery(run, net, ep, data, src, how):
             run.violation('C17.state_changed', f'an undecodable {how} datagram changed {which}: {data[:120]!r}',
                           what=which[0])
             return False
-        rec = proto.peer_manager._rpc_failures.get((src[0], src[1]), (None, None))
-        if rec[1] != now:
+        if (src[0], src[1]) not in booked:
             run.violation('C17.failure_not_recorded', f'an undecodable {how} datagram from {src} was dropped without '
                           f'recording a failure for the sender (product decoder raised {type(prod_exc).__name__})',
                           exc=type(prod_exc).__name__)
@@ -368,8 +396,7 @@ def judge_delivery(run, net, ep, data, src, how):
             run.violation('C17.malformed_changed_state', f'a {how} datagram that is not valid bencode ({enc_error}) was handled '
                           f'as a {type(prod).__name__} and changed {which}: {data[:120]!r}', what=what)
             return False
-        rec = proto.peer_manager._rpc_failures.get((src[0], src[1]), (None, None))
-        if rec[1] != now:
+        if (src[0], src[1]) not in booked:
             run.violation('C17.malformed_not_dropped', f'a {how} datagram that is not valid bencode ({enc_error}) was handled as '
                           f'a {type(prod).__name__} instead of being dropped with a failure recorded for {src}: {data[-40:]!r}',
                           what=what)
@@ -378,6 +405,16 @@ def judge_delivery(run, net, ep, data, src, how):
         # (c2) valid bencode that is not a protocol message by the reference schema (unknown method, extra keys,
         # odd field types, unsorted keys, nesting beyond the reference limit): only "no exception escapes"
         run.probes['class_c_lenient'] += 1
+        if (src[0], src[1]) in booked:
+            # the handler itself rejected it (failure booked for the sender): then it must have been DROPPED - the
+            # routing table and the stored announcements are as before
+            run.probes['class_c_rejected_by_handler'] += 1
+            after = snapshot(proto)
+            if after[:3] != before[:3]:
+                which = [SNAP_NAMES[i] for i in range(3) if before[i] != after[i]]
+                run.violation('C17.rejected_changed_state', f'a {how} datagram from {src} was rejected by the handler (failure '
+                              f'recorded) and still changed {which}: {data[:160]!r}', what=which[0])
+                return False
     return True
 
 
@@ -526,6 +563,29 @@ def _execute_single(scenario, run):
                                   step='value')
                     return
             how = op['op']
+            if how == 'store_pair':
+                from lbry.dht.serialization.datagram import RequestDatagram
+                nid = r.choice(ids) if r.random() < 0.3 else _rb(r, 48)
+                port1, port2 = r.sample([1024, 3333, 4444, 6666, 50000, 65534], 2)
+                first = RequestDatagram.make_store(nid, _rb(r, 48), _rb(r, 48), port1, _rb(r, 20)).bencode()
+                judged[0] += 1
+                if not judge_delivery(run, world.net, ep, first, src, 'valid'):
+                    return
+                held = [k for k in ep.protocol.data_store.keys()
+                        if any((p.address, p.tcp_port) == (src[0], port1) for p in ep.protocol.data_store.filter_expired_peers(k))]
+                if held:
+                    run.probes['store_pair_first_stored'] += 1
+                root = bref.decode(RequestDatagram.make_store(nid, _rb(r, 48), _rb(r, 48), port2, _rb(r, 20)).bencode())
+                args = list(root[4])
+                args[0] = r.choice([[7] * 48, [b'a'] * 48, [[1]] * 48, {i: i for i in range(48)}])
+                root[4] = args
+                run.faults['structural'] += 1
+                run.probes['store_pair_bad_store'] += 1
+                judged[0] += 1
+                if not judge_delivery(run, world.net, ep, bref.encode(root), src, 'struct'):
+                    return
+                run.ev(how, len(held))
+                continue
             if how == 'valid':
                 before = snapshot(ep.protocol)
                 ok = judge_delivery(run, world.net, ep, data, src, 'valid')
